@@ -45,6 +45,7 @@ RULE = ("Enumerated part: files of 0, 1, 16384, 16385, 40000 bytes, the "
         "Distinct: event-log digests among non-trivial runs.")
 RULE += (' Also: retry after an interrupted attempt (stale <name>.tmp), and a transit path that replays / duplicates a genuine record frame.')
 RULE += (' Texts and offered names include sequences that are not in Unicode NFC form.')
+RULE += (" Seeded runs also include a receiver whose free-space estimate is below / at / just above the announced size (refusal paths), and --verify on both sides with a sending user who confirms after some dithering or refuses.")
 RULE += (' File contents are random bytes in half of the runs and structured otherwise (all NUL, NUL tail or head of any length, short patterns such as CR LF / ^Z / 0xff repeated).')
 LEVEL_TEXT = ("Fault enumeration over cut/corruption points of fixed payloads "
               "plus seeded exploration. Oracle: receive() success => the tree "
@@ -131,6 +132,9 @@ def sweep(tier):
 
 def configs(tier):
     return [{}]
+
+
+_REAL_FREE_SPACE = cmd_receive.estimate_free_space
 
 
 def content(tape, size, tag):
@@ -237,6 +241,7 @@ def run_one(seed, tape, opts):
     finally:
         cmd_receive.open = open
         cmd_receive.os = os
+        cmd_receive.estimate_free_space = _REAL_FREE_SPACE
         w.cleanup()
 
 
@@ -275,6 +280,17 @@ def _run(seed, tape, opts, w):
         elif kind != "text" and fk == 4:
             fault = ["byz", tape.pick(("wrong_hash", "not_ok", "no_ack",
                                        "garbage"), "bz"), 0]
+        elif kind != "text" and fk == 6 and tape.choose(2, "space?") == 0:
+            # the receiver's disk is (nearly) full: the free-space estimate
+            # is below / at / just above what the offer announces
+            fault = ["space", tape.pick((0, 1, -1, "exact", "plus1"), "free"),
+                     0]
+        elif fk == 7:
+            # --verify on both sides: the sending user is asked to confirm
+            # the verifier and answers after some dithering, or refuses
+            fault = ["verify", tape.pick((["yes"], ["YES"], ["", "maybe",
+                                                             "yes"],
+                                          ["no"], ["y", "No"]), "vans"), 0]
         if tape.choose(4, "relay") == 0 and not fault:
             w.start_relay()
     code = "%d-sim-code" % (1 + tape.choose(90, "np"))
@@ -354,16 +370,40 @@ def _run(seed, tape, opts, w):
                     sim.note("fault.rename_error")
                     raise OSError(errno.EIO, "sim: rename failed")
             cmd_receive.os = OsProxy()
+    space_rejects = False
+    if fault and fault[0] == "space":
+        announced = [None]
+
+        def free_space(target):
+            # what the offer announced is in the Receiver's hands by now
+            n = fault[1]
+            size = os.path.getsize(src) if payload[0] == "file" else \
+                sum(len(v[1]) for v in want.values() if v[0] == "file")
+            if n == "exact":
+                n = size
+            elif n == "plus1":
+                n = size + 1
+            elif n == -1:
+                n = max(0, size - 1)
+            announced[0] = (n, size)
+            sim.note("fault.free_space_estimate")
+            return n
+        cmd_receive.estimate_free_space = free_space
+    vargs = []
+    if fault and fault[0] == "verify":
+        vargs = ["--verify"]
+        w.inputs = list(fault[1]) + ["no"] * 3
+        sim.note("fault.verify_prompt")
     # mailbox faults during negotiation
     if not fixed:
         from checks import common_a as ca
         ca.pick_faults(tape, w, ("cut", "server_restart"), 1)
     no_listen_r = fixed or tape.choose(2, "rl") == 0
-    w.send("--code", code, *extra)
+    w.send("--code", code, *(vargs + extra))
     if fault and fault[0] == "byz":
         byz_receiver(w, code, fault[1])
     else:
-        rargs = ["--accept-file"]
+        rargs = ["--accept-file"] + vargs
         if no_listen_r:
             rargs.append("--no-listen")
         w.receive(*(rargs + [code]))
